@@ -5,7 +5,7 @@ import impl, gen, oracle, evalutil as E
 from common import same_value, score_matches, rval_to_py, close
 from props.c08 import rand_handler
 
-RULE = ("label-map pairs (incl. one or both sides empty; label values up to 2^16 incl. multiples of 256) x subsets of global "
+RULE = ("uint8/uint16 pairs with an outlying overlap voxel whose two labels add up to 2^bits; class groups whose labels exceed the dtype of the arrays; label-map pairs (incl. one or both sides empty; label values up to 2^16 incl. multiples of 256) x subsets of global "
         "metrics {DSC,IOU,RVD,ASSD} x random asymmetric edge-case handlers x input types; each foreground evaluated under "
         "several instance labellings; non-trivial = a side is empty under a handler with distinct values, or the same "
         "foreground evaluated under >= 2 different labellings")
@@ -135,8 +135,60 @@ def corpus(ctx):
     one_case(ctx, b, a, cfg, ["DSC", "IOU", "RVD"], "corpus.many-components")
 
 
+def complementary_cases(ctx, n):
+    """uint8 / uint16 pairs with an outlying overlap voxel whose two labels add up to 2^bits"""
+    rng = ctx.rng
+    for i in range(n):
+        sc = gen.complementary_scene(rng, rng.choice([8, 8, 16]), ndim=rng.choice([2, 2, 3]))
+        if sc is None:
+            continue
+        gm = rng.sample(["DSC", "IOU", "RVD", "ASSD"], rng.randint(1, 3))
+        it = rng.choice(["MATCHED", "UNMATCHED"])
+        cfg = E.mk_cfg(it, ["IOU"], matcher=None if it == "MATCHED" else E.naive("IOU", (1, 2)))
+        ctx.count("labels_adding_up_to_2^bits")
+        one_case(ctx, sc[0], sc[1], cfg, gm, f"compl{i}", variant=True)
+
+
+def group_dtype_cases(ctx, n):
+    """class groups whose labels do not fit the dtype of the arrays (a labelling scheme with labels >= 256 evaluated on a
+    subject stored as uint8): such a group is empty on both sides, whatever other labels the arrays contain"""
+    rng = ctx.rng
+    for i in range(n):
+        pred, ref = gen.pair(rng, ndim=rng.choice([2, 3]), hi=7, max_obj=3, allow_empty=False)
+        pred, ref = pred.astype(np.uint8), ref.astype(np.uint8)
+        present = sorted((set(np.unique(pred).tolist()) | set(np.unique(ref).tolist())) - {0})
+        wide = [256 + l for l in present][: rng.randint(1, 3)] + ([65536 + present[0]] if rng.random() < 0.3 else [])
+        groups = [{"name": "here", "labels": present, "merge": False, "single": False},
+                  {"name": "elsewhere", "labels": wide, "merge": rng.random() < 0.3, "single": False}]
+        gm = rng.sample(["DSC", "IOU", "RVD"], rng.randint(1, 2))
+        handler = E.default_handler_json()
+        handler["table"] = [[m, {"NO_INSTANCES": "ONE", "EMPTY_PRED": "ZERO", "EMPTY_REF": "INF", "NORMAL": "NAN"}] for m, _ in handler["table"]]
+        cfg = E.mk_cfg("MATCHED", ["IOU"], handler=handler)
+        inp = {"shape": list(pred.shape), "dtype": "uint8", "pred": gen.arr_json(pred), "ref": gen.arr_json(ref), "cfg": cfg, "groups": groups,
+               "global_metrics": gm, "src": f"groupdtype{i}"}
+        ctx.case(inp, True)
+        ctx.count("group_labels_beyond_dtype")
+        res = E.run_impl(cfg, pred, ref, groups=groups, global_metrics=gm)
+        if isinstance(res, str):
+            ctx.count("impl_error." + res)
+            continue
+        for m in gm:
+            got = res["elsewhere"]["global_bin_" + m.lower()]
+            if isinstance(got, str) or not same_value(got, 1.0, exact=True):
+                ctx.violation(f"global_bin_{m.lower()} of a class group none of whose labels {wide} occurs in the uint8 arrays is {got}, but both "
+                              f"foregrounds of that group are empty and the handler prescribes ONE for NO_INSTANCES", inp, impl=res["elsewhere"],
+                              key={"kind": "global-empty"})
+            want = oracle.mask_score(m, ref != 0, pred != 0)
+            g2 = res["here"]["global_bin_" + m.lower()]
+            if pred.any() and ref.any() and not (isinstance(g2, str)) and want is not None and (g2 is None or float(g2) != want.numerator / want.denominator):
+                ctx.violation(f"global_bin_{m.lower()} of the group that covers every present label is {g2}, but {m} of the binarised maps is {want}",
+                              inp, impl=res["here"], key={"kind": "global-value"})
+
+
 def run(ctx):
     corpus(ctx)
+    complementary_cases(ctx, ctx.scale(60, 600))
+    group_dtype_cases(ctx, ctx.scale(40, 400))
     run_cases(ctx, ctx.scale(500, 5000), "rand")
 
 
@@ -146,6 +198,16 @@ def search(ctx):
 
 def replay(ctx, rec):
     i = rec["input"]
+    if i.get("groups"):
+        pred, ref = np.array(i["pred"], dtype=np.uint8).reshape(i["shape"]), np.array(i["ref"], dtype=np.uint8).reshape(i["shape"])
+        res = E.run_impl(i["cfg"], pred, ref, groups=i["groups"], global_metrics=i["global_metrics"])
+        ctx.case(i, True)
+        for m in i["global_metrics"]:
+            got = res["elsewhere"]["global_bin_" + m.lower()] if isinstance(res, dict) else res
+            if isinstance(got, str) or not same_value(got, 1.0, exact=True):
+                ctx.violation(f"global_bin_{m.lower()} of a class group whose labels cannot occur in the arrays is {got}, handler prescribes ONE", i,
+                              key={"kind": "global-empty"})
+        return
     dt = np.dtype(i.get("dtype", "uint8"))
     one_case(ctx, np.array(i["pred"], dtype=dt).reshape(i["shape"]), np.array(i["ref"], dtype=dt).reshape(i["shape"]),
              i["cfg"], i["global_metrics"], "replay")
